@@ -736,21 +736,45 @@ Proof.
   intros S Hj NE i Hi. pose proof (sorted_pairs_chr_nth l S i j ltac:(lia)). pose proof (sorted_pairs_chr_nth l S j (Datatypes.S j) ltac:(lia)). lia.
 Qed.
 
-(** * Part 7: interp_gmap copies the group metadata of the source map *)
-(** the metadata of the returned map describes its own marker array only when the query is the source map's marker list *)
-Lemma interp_gmap_meta_partial input :
-  let '(q, g, m) := interp_gmap input (own_pairs (gm_rows input)) in m = group_meta (map fst q).
-Proof. unfold interp_gmap, gm_meta, own_pairs. rewrite map_map. reflexivity. Qed.
+(** * Part 7: interp_gmap — the new map carries no grouping of the source map; the grouping it computes on first use
+      describes its own markers *)
+Lemma sorted_pairs_fst l : Sorted pair_le l -> Sorted Z.le (map fst l).
+Proof.
+  induction 1 as [|a t St IH Hd]; cbn [map]; [constructor|]. constructor; [exact IH|].
+  destruct Hd as [|b t' Hab]; cbn [map]; constructor. unfold pair_le in Hab. rewrite pair_leb_spec in Hab. lia.
+Qed.
+
+Lemma interp_gmap_meta input query :
+  let '(q, g, m) := interp_gmap input query in
+  q = query /\ g = interp_genpos (gm_rows input) query /\ m = None /\
+  Permutation (igmap_markers q) q /\ Sorted pair_le (igmap_markers q) /\
+  let '(names, st, sp, ln) := igmap_group q in
+  length st = length names /\ length sp = length names /\ length ln = length names /\
+  decode_runs (combine names ln) = map fst (igmap_markers q) /\ Sorted Z.lt names.
+Proof.
+  unfold interp_gmap. split; [reflexivity|]. split; [reflexivity|]. split; [reflexivity|].
+  split; [apply sort_pairs_perm|]. split; [apply sort_pairs_sorted|].
+  pose proof (group_meta_shape (map fst (igmap_markers query))) as H.
+  pose proof (runs_names_incr (map fst (igmap_markers query)) (sorted_pairs_fst _ (sort_pairs_sorted query))) as N.
+  unfold igmap_group. unfold group_meta in *. cbv zeta in *.
+  destruct H as (H1 & H2 & H3 & H4). repeat split; assumption.
+Qed.
+
+(** the FORMER code: the copied metadata describes the returned map's own marker array only when the query is the source
+    map's marker list *)
+Lemma old_interp_gmap_meta_own input :
+  let '(q, g, m) := old_interp_gmap input (own_pairs (gm_rows input)) in m = Some (group_meta (map fst q)).
+Proof. unfold old_interp_gmap, gm_meta, own_pairs. rewrite map_map. reflexivity. Qed.
 
 Definition wit_rows : list row :=
   [mkRow 2 10 (1#8) []; mkRow 1 5 0 []; mkRow 1 20 (1#2) []; mkRow 2 30 (7#8) []; mkRow 1 9 (1#4) []; mkRow 2 20 (3#8) []].
 
-Lemma interp_gmap_meta_refuted : exists input query, distinct_pos input /\
-  let '(q, g, m) := interp_gmap input query in m <> group_meta (map fst q).
+Lemma old_interp_gmap_meta_refuted : exists input query, distinct_pos input /\
+  let '(q, g, m) := old_interp_gmap input query in m <> Some (group_meta (map fst q)) /\ m <> None.
 Proof.
   exists wit_rows, [(1, 5); (1, 7)]. split.
   - unfold distinct_pos, wit_rows. cbn. repeat constructor; cbn; intuition discriminate.
-  - vm_compute. discriminate.
+  - vm_compute. split; discriminate.
 Qed.
 
 (** the witness is a well-formed map: the hypotheses of the theorems are satisfiable *)
@@ -808,32 +832,81 @@ Proof.
     + intros O. apply gdist1g_agrees_gdist2g; [exact L | exact Hj | exact O | |]; apply P, nth_In; unfold n in Hj; lia.
 Qed.
 
-(** * Part 9: remove_discrepancies leaves the old spline in place *)
+(** * Part 9: select / remove / remove_discrepancies rebuild the spline from the remaining markers *)
+Lemma kept_in (rows : list row) : forall (mask : list bool) r, In r (map fst (filter snd (combine rows mask))) -> In r rows.
+Proof.
+  induction rows as [|a t IH]; intros [|b mask] r H; cbn in H; try contradiction.
+  destruct b; cbn in H; [destruct H as [<-|H]; [now left|]|]; right; eapply IH; exact H.
+Qed.
+Lemma kept_distinct (rows : list row) : forall (mask : list bool), distinct_pos rows -> distinct_pos (map fst (filter snd (combine rows mask))).
+Proof.
+  unfold distinct_pos. induction rows as [|a t IH]; intros [|b mask] ND; cbn; try constructor.
+  inversion ND as [|? ? Hn Ht]; subst. destruct b; cbn; [|now apply IH].
+  constructor; [|now apply IH]. intros H. apply Hn. apply in_map_iff in H as (r & E & Hr). rewrite <- E.
+  apply in_map. eapply kept_in. exact Hr.
+Qed.
+
+(** a selection of a map without duplicated positions is again a well-formed map, provided two markers stay per chromosome *)
+Lemma select_rows_wf rows mask : distinct_pos rows -> two_markers (select_rows rows mask) -> wf_map (select_rows rows mask).
+Proof. intros ND TM. apply (gm_rows_wf (map fst (filter snd (combine rows mask)))); [now apply kept_distinct | exact TM]. Qed.
+
+Lemma rd_rows_wf rows : wf_map rows -> two_markers (rd_rows rows) -> wf_map (rd_rows rows).
+Proof.
+  intros W TM. unfold rd_rows in *. destruct (is_congruent rows); [exact W|]. destruct W as (_ & ND & _). now apply select_rows_wf.
+Qed.
+
+(** after remove_discrepancies() the object interpolates with the spline of the reduced rows: exact at the remaining
+    markers, on the chord between consecutive remaining markers, order-preserving once the reduced map is congruent *)
+Lemma rd_interp_laws rows : wf_map rows -> two_markers (rd_rows rows) ->
+  wf_map (rd_rows rows) /\
+  Forall2 ext_equiv (rd_interp_genpos rows (own_pairs (rd_rows rows))) (fin_gens (rd_rows rows)) /\
+  (forall c i x, has_chr (rd_rows rows) c = true ->
+     let k := knots (rd_rows rows) c in (S i < length k)%nat -> fst (nth i k (0%Z, 0%Q)) <= x <= fst (nth (S i) k (0%Z, 0%Q)) ->
+     exists g, rd_interp_pos rows (c, x) = Fin g /\
+       (g == chord x (fst (nth i k (0%Z, 0%Q))) (snd (nth i k (0%Z, 0%Q))) (fst (nth (S i) k (0%Z, 0%Q))) (snd (nth (S i) k (0%Z, 0%Q))))%Q) /\
+  (forall c x x', is_congruent (rd_rows rows) = true -> has_chr (rd_rows rows) c = true -> x <= x' ->
+     exists g g', rd_interp_pos rows (c, x) = Fin g /\ rd_interp_pos rows (c, x') = Fin g' /\ (g <= g')%Q) /\
+  (forall c x, has_chr (rd_rows rows) c = false -> rd_interp_pos rows (c, x) = NaN).
+Proof.
+  intros W TM. pose proof (rd_rows_wf rows W TM) as W'. split; [exact W'|]. split; [|split; [|split]].
+  - unfold rd_interp_genpos, rd_interp_pos. now apply interp_own_markers.
+  - intros c i x H k Hi Hx. unfold rd_interp_pos. now apply interp_linear_between.
+  - intros c x x' C H Hx. unfold rd_interp_pos. now apply interp_order_preserving.
+  - intros c x H. unfold rd_interp_pos. now apply interp_off_map.
+Qed.
+
+(** nothing is removed from a congruent map *)
+Lemma rd_rows_congruent rows : is_congruent rows = true -> rd_rows rows = rows.
+Proof. intros H. unfold rd_rows. now rewrite H. Qed.
+
 Definition wit_rd : list row := [mkRow 1 10 0 []; mkRow 1 20 (1#2) []; mkRow 1 30 (1#4) []; mkRow 1 40 (3#4) []].
 
-(** after remove_discrepancies the map is well-formed and congruent, yet the object interpolates with the spline of the
-    old rows: between the flanking markers 20 and 40 of the new map the value at 30 is 1/4, not on their chord (5/8),
-    and the order of 20 -> 1/2, 30 -> 1/4 is reversed *)
-Lemma stale_spline_refuted : exists rows c x i,
-  wf_map (rd_rows rows) /\ is_congruent (rd_rows rows) = true /\
-  let k := knots (rd_rows rows) c in
-  (S i < length k)%nat /\ fst (nth i k (0%Z, 0%Q)) <= x <= fst (nth (S i) k (0%Z, 0%Q)) /\
-  exists g, interp_pos rows (c, x) = Fin g /\
-    ~ (g == chord x (fst (nth i k (0%Z, 0%Q))) (snd (nth i k (0%Z, 0%Q))) (fst (nth (S i) k (0%Z, 0%Q))) (snd (nth (S i) k (0%Z, 0%Q))))%Q.
+Lemma wit_rd_wf : wf_map wit_rd /\ two_markers (rd_rows wit_rd) /\ is_congruent wit_rd = false /\ is_congruent (rd_rows wit_rd) = true.
 Proof.
-  exists wit_rd, 1, 30, 1%nat. split; [|split; [reflexivity|]].
+  split; [|split; [|split; reflexivity]].
   - split; [|split].
-    + change (rd_rows wit_rd) with (sort_rows [mkRow 1 10 0 []; mkRow 1 20 (1#2) []; mkRow 1 40 (3#4) []]). apply sort_rows_strongly.
+    + change wit_rd with (sort_rows wit_rd). apply sort_rows_strongly.
     + unfold distinct_pos. vm_compute. repeat constructor; cbn; intuition discriminate.
     + intros c H. apply existsb_exists in H as (r & Hr & E). apply Z.eqb_eq in E. subst c.
       vm_compute in Hr. repeat (destruct Hr as [<-|Hr]; [vm_compute; lia|]). destruct Hr.
-  - cbv zeta. split; [vm_compute; lia|]. split; [vm_compute; split; discriminate|].
-    eexists. split; [vm_compute; reflexivity|]. vm_compute. discriminate.
+  - intros c H. apply existsb_exists in H as (r & Hr & E). apply Z.eqb_eq in E. subst c.
+    vm_compute in Hr. repeat (destruct Hr as [<-|Hr]; [vm_compute; lia|]). destruct Hr.
 Qed.
 
-(** with the spline rebuilt from the reduced rows the law holds again: this is [interp_linear_between] on [rd_rows rows] *)
-Lemma stale_spline_partial rows : is_congruent rows = true -> rd_rows rows = rows.
-Proof. intros H. unfold rd_rows. now rewrite H. Qed.
+(** the FORMER code kept the spline of the old rows: after remove_discrepancies the map is well-formed and congruent, yet
+    between the flanking markers 20 and 40 of the new map the value at 30 was 1/4, not on their chord (5/8), and the order
+    of 20 -> 1/2, 30 -> 1/4 was reversed *)
+Lemma old_stale_spline_refuted : exists rows c x i,
+  wf_map (rd_rows rows) /\ is_congruent (rd_rows rows) = true /\
+  let k := knots (rd_rows rows) c in
+  (S i < length k)%nat /\ fst (nth i k (0%Z, 0%Q)) <= x <= fst (nth (S i) k (0%Z, 0%Q)) /\
+  exists g, old_rd_interp_pos rows (c, x) = Fin g /\
+    ~ (g == chord x (fst (nth i k (0%Z, 0%Q))) (snd (nth i k (0%Z, 0%Q))) (fst (nth (S i) k (0%Z, 0%Q))) (snd (nth (S i) k (0%Z, 0%Q))))%Q.
+Proof.
+  exists wit_rd, 1, 30, 1%nat. destruct wit_rd_wf as (W & TM & _ & C). split; [now apply rd_rows_wf|]. split; [exact C|].
+  cbv zeta. split; [vm_compute; lia|]. split; [vm_compute; split; discriminate|].
+  eexists. split; [vm_compute; reflexivity|]. vm_compute. discriminate.
+Qed.
 
 (** lemmas in the shape used by Props/C11.v *)
 Lemma constructor_sorts input : Permutation (gm_rows input) input /\ StronglySorted key_le (gm_rows input).
